@@ -193,14 +193,14 @@ func checkC05(p *Prog, r *Report) {
 	gf := p.Fn("AttrControl.GetFrom")
 	if r.Anchor("AttrControl.GetFrom", gf != nil) {
 		t2 := p.NewTable(gf)
-		t2.Event = func(n ast.Node, _ *TEnv) []string {
+		t2.Event = func(n ast.Node, env *TEnv) []string {
 			var out []string
 			if as, ok := n.(*ast.AssignStmt); ok && len(as.Lhs) == 1 && p.IsField(as.Lhs[0], "AttrControl.Role") {
-				out = append(out, "Role="+p.constName(as.Rhs[0]))
+				out = append(out, "Role="+env.ConstName(p, as.Rhs[0]))
 			}
 			for _, c := range p.NodeCalls(n) {
 				if p.CalleeName(c) == "ice.tiebreaker.GetFromAs" && len(c.Args) == 2 {
-					out = append(out, "decode("+p.constName(c.Args[1])+")")
+					out = append(out, "decode("+env.ConstName(p, c.Args[1])+")")
 				}
 			}
 			return out
